@@ -3,6 +3,7 @@
 package logqlmetric
 
 import (
+	"math"
 	"strconv"
 	"time"
 
@@ -119,7 +120,14 @@ func verifC11TopK(S int) {
 		expr.Op = logql.VectorOpSortDesc
 	}
 	if kind < 2 {
-		k = 1 + vsymChoice("k", S)
+		// k up to the number of series, and far beyond it (a k larger than
+		// any vector is valid LogQL and must not cost anything)
+		big := []int{S + 5, 70000, 1 << 40, math.MaxInt64}
+		if c := vsymChoice("k", S+len(big)); c < S {
+			k = 1 + c
+		} else {
+			k = big[c-S]
+		}
 		expr.Parameter = &k
 	}
 	it, err := VectorAggregation(iterators.Slice([]Step{{Timestamp: 9, Samples: samples}}), expr)
